@@ -22,7 +22,7 @@ PLAN = {
     "quick": {"cases": 1200, "soft_s": 80, "min_nontrivial": 300, "require": REQ},
     "thorough": {"cases": 50000, "soft_s": 1300, "min_nontrivial": 10000, "require": REQ},
 }
-ASSUMPTIONS = ["cases whose SE(2) angular error is within 1e-6 of +-pi are excluded (the error itself is discontinuous there); cond(H) <= 1e8 else inconclusive"]
+ASSUMPTIONS = ["cases whose SE(2) angular error is within 1e-6 of +-pi are excluded (the error itself is discontinuous there); cond(H) <= 1e8 else inconclusive; cases where the measured amplification of the K-iteration map (re-run from a 1e-11 perturbed start) exceeds 1e5 are inconclusive"]
 
 
 def transform_spec(spec, k, T):
@@ -91,7 +91,12 @@ def run_case(ctx, i, rng):
     except Exception as ex:
         ctx.check("trajectory-commutes-with-frame-change", False, dict(feats, exception=type(ex).__name__), {"message": str(ex)[:300]}, case)
         return
-    tol = 200 * R.EPS * cond * (1.0 + tmagT + scene) * 4.0 ** K
+    # measured on both executions; the smaller one counts: genuine ill-conditioning of the iteration shows in both (same physical problem), whereas a defect that
+    # makes only one of them sensitive to a 1e-11 change (e.g. a special-cased exact value) must not be mistaken for chaos
+    amp = min(M.iteration_amplification(spec, g, {"max_iter": K, "tol": 0.0}), M.iteration_amplification(spec_t, gt, {"max_iter": K, "tol": 0.0}))
+    if not (amp < 1e5):
+        raise Skip("the K-iteration map amplifies a 1e-11 perturbation by more than 1e5 here (expanding / chaotic regime)")
+    tol = 200 * R.EPS * cond * (1.0 + tmagT + scene) * max(4.0 ** K, 10.0 * amp)
     worst = 0.0
     moved = 0.0
     for v, vt, v0 in zip(g._vertices, gt._vertices, spec["vertices"]):
